@@ -88,6 +88,8 @@ type pathState struct {
 	lockEvents      int
 	condWaitHook    value
 	recursionLimit  int
+	condSignals     int
+	condBroadcasts  int
 	condWaits       int
 	fnsCalled       map[*ssa.Function]bool
 	harness         *Harness
